@@ -22,6 +22,13 @@ var Fields []string
 type pattern []field
 
 func (p pattern) write(b *bytes.Buffer, e *Event) {
+	// all timestamps are labelled as UTC ('Z', '+0000')
+	// so they must be rendered in UTC as well.
+	if e.End.Location() != time.UTC {
+		utc := *e
+		utc.End = e.End.UTC()
+		e = &utc
+	}
 	for _, fn := range p {
 		fn(b, e)
 	}
